@@ -244,6 +244,11 @@ func (ft *FT) instr(ins ssa.Instruction, st *State, guard Term) {
 	case *ssa.Panic:
 		if ft.con == nil || !ft.con.MayPanic {
 			ft.oblige("panic", x.Pos(), "", guard, "false", ft.con != nil && ft.con.Strict)
+		} else {
+			// declared panic exit: checked against ensures_on_panic
+			ft.keySort("$panicking", "Bool")
+			ft.set(st, "$panicking", "true")
+			ft.exitObligations(x.Pos(), st, guard, nil, true)
 		}
 		ft.panicExit(x, st, guard)
 	case *ssa.MakeInterface:
